@@ -1,9 +1,260 @@
-(** C11 - placeholder while the harness is built *)
-From Coq Require Import ZArith List Bool Arith.
-From Verif Require Import Base Np Group Engine Merge.
+(** C11 - Each entity's result is independent of the other entities simulated with it.
+    Only statements here; proofs are in proofs/Merge{Lists,Emb,Eval,Proofs}.v.
+
+    Vocabulary.  coq/model/Engine.v: [sem sy pp inp v p] is the meaning of variable [v] at
+    period [p] of rule system [sy] on population [pp] and inputs [inp] (value or error
+    kind); [calc] is the machine (Simulation.calculate).  coq/model/Merge.v:
+    - a placement [f] gives element number i the new position [nth i f 0];
+      [interleaving f1 f2 n1 n2]: [f1] (n1 positions) and [f2] (n2 positions) together are
+      a permutation of 0 .. n1+n2-1 - ANY order of the merged entities, each situation's
+      internal order kept or not;
+    - [merge f1 f2 g1 g2 pp1 pp2]: the one population holding both situations, persons
+      placed by [f1]/[f2], groups by [g1]/[g2] ([merge_population_spec] below);
+      [merge_inputs]: the merged input arrays; [restrict f a]: the elements of the merged
+      array [a] at the positions [f], i.e. the part of one situation in its own order;
+    - [permute sp sg pp], [permute_inputs], [place f a]: the situation with its persons
+      renumbered by [sp] and its groups by [sg]; the array whose element [nth i f 0] is
+      element i of [a];
+    - [pick (ent_of sy v) fp fg]: the person placement for a person variable, the group
+      placement for a group variable;
+    - [kinded sy]: every formula returns one value per entity of its variable
+      (aggregations / nb_persons in group formulas over person-level arguments, projections
+      in person formulas over group-level arguments); [inputs_wf]: every input array has one
+      element per entity (what set_input checks).
+    GroupSpec.v: [wf_pop]: every person belongs to a group of the simulation and has a role.
+
+    The expression language of Engine.v has the group operations sum / any / all /
+    nb_persons / project, with and without role; it has no position-dependent primitive
+    (value_nth_person, first_person, get_rank), so the second sentence of the property
+    holds for every rule system of the model.  Every situation has at least one person
+    (SimulationBuilder refuses a situation without persons; group.all raises on one). *)
+From Coq Require Import ZArith List Bool Arith String.
+From Verif Require Import Base Cal Period Np Group GroupSpec Engine EngineProofs Merge MergeProofs.
 Import ListNotations.
 Open Scope nat_scope.
+Local Notation length := List.length.
 
-Theorem gather_nil : forall (A : Type) (f : list nat), @gather A f [] = [].
-Proof. intros A f. induction f as [|j f IH]; [reflexivity|]. unfold gather in *. cbn [flat_map]. rewrite IH. destruct j; reflexivity. Qed.
-Print Assumptions gather_nil.
+(** Simulating two situations together, in any interleaved order of persons and of groups:
+    every variable at every period, restricted to the entities of one situation, is what
+    that situation gives alone - the same values, or the same error. *)
+Theorem merge_independence : forall sy pp1 pp2 inp1 inp2 f1 f2 g1 g2,
+  kinded sy = true ->
+  wf_pop (grp pp1) -> wf_pop (grp pp2) -> g_entity (grp pp2) = g_entity (grp pp1) ->
+  interleaving f1 f2 (npersons (grp pp1)) (npersons (grp pp2)) = true ->
+  interleaving g1 g2 (g_count (grp pp1)) (g_count (grp pp2)) = true ->
+  inputs_wf sy pp1 inp1 -> inputs_wf sy pp2 inp2 -> map fst inp1 = map fst inp2 ->
+  forall v p,
+    (0 < npersons (grp pp1) ->
+     rmap (restrict (pick (ent_of sy v) f1 g1))
+          (sem sy (merge f1 f2 g1 g2 pp1 pp2) (merge_inputs sy f1 f2 g1 g2 inp1 inp2) v p)
+     = sem sy pp1 inp1 v p)
+    /\
+    (0 < npersons (grp pp2) ->
+     rmap (restrict (pick (ent_of sy v) f2 g2))
+          (sem sy (merge f1 f2 g1 g2 pp1 pp2) (merge_inputs sy f1 f2 g1 g2 inp1 inp2) v p)
+     = sem sy pp2 inp2 v p).
+Proof. exact merge_independence_lemma. Qed.
+Print Assumptions merge_independence.
+
+(** Reordering the persons and the groups of a situation permutes every result
+    accordingly and changes no value (and no error). *)
+Theorem permutation_equivariance : forall sy pp inp sp sg,
+  kinded sy = true -> wf_pop (grp pp) -> 0 < npersons (grp pp) ->
+  is_perm_b sp (npersons (grp pp)) = true -> is_perm_b sg (g_count (grp pp)) = true ->
+  inputs_wf sy pp inp ->
+  forall v p,
+    sem sy (permute sp sg pp) (permute_inputs sy sp sg inp) v p
+    = rmap (place (pick (ent_of sy v) sp sg)) (sem sy pp inp v p).
+Proof. exact permutation_equivariance_lemma. Qed.
+Print Assumptions permutation_equivariance.
+
+(** The same for the machine (cache, evaluation stack, spiral test, purge), for ranked rule
+    systems, between any two top-level requests of the three simulations ([Top]: C01). *)
+Theorem merge_independence_calculate : forall sy pp1 pp2 inp1 inp2 f1 f2 g1 g2,
+  ranked sy = true -> 1 <= max_loops sy -> kinded sy = true ->
+  wf_pop (grp pp1) -> wf_pop (grp pp2) -> g_entity (grp pp2) = g_entity (grp pp1) ->
+  interleaving f1 f2 (npersons (grp pp1)) (npersons (grp pp2)) = true ->
+  interleaving g1 g2 (g_count (grp pp1)) (g_count (grp pp2)) = true ->
+  inputs_wf sy pp1 inp1 -> inputs_wf sy pp2 inp2 -> map fst inp1 = map fst inp2 ->
+  0 < npersons (grp pp1) -> 0 < npersons (grp pp2) ->
+  let ppM := merge f1 f2 g1 g2 pp1 pp2 in
+  let inpM := merge_inputs sy f1 f2 g1 g2 inp1 inp2 in
+  forall sM s1 s2 v p, Top sy ppM inpM sM -> Top sy pp1 inp1 s1 -> Top sy pp2 inp2 s2 ->
+    rmap (restrict (pick (ent_of sy v) f1 g1)) (snd (calc (enough_fuel sy) sy ppM sM v p))
+    = snd (calc (enough_fuel sy) sy pp1 s1 v p)
+    /\
+    rmap (restrict (pick (ent_of sy v) f2 g2)) (snd (calc (enough_fuel sy) sy ppM sM v p))
+    = snd (calc (enough_fuel sy) sy pp2 s2 v p).
+Proof. exact merge_independence_calc_lemma. Qed.
+Print Assumptions merge_independence_calculate.
+
+Theorem permutation_equivariance_calculate : forall sy pp inp sp sg,
+  ranked sy = true -> 1 <= max_loops sy -> kinded sy = true ->
+  wf_pop (grp pp) -> 0 < npersons (grp pp) ->
+  is_perm_b sp (npersons (grp pp)) = true -> is_perm_b sg (g_count (grp pp)) = true ->
+  inputs_wf sy pp inp ->
+  forall sP s v p, Top sy (permute sp sg pp) (permute_inputs sy sp sg inp) sP -> Top sy pp inp s ->
+    snd (calc (enough_fuel sy) sy (permute sp sg pp) sP v p)
+    = rmap (place (pick (ent_of sy v) sp sg)) (snd (calc (enough_fuel sy) sy pp s v p)).
+Proof. exact permutation_equivariance_calc_lemma. Qed.
+Print Assumptions permutation_equivariance_calculate.
+
+(** What the merged population is: person i of situation k is the person [nth i f_k 0] of
+    the merged population, member of group [nth (its group) g_k 0], with its role; the
+    merged population has exactly these persons and groups. *)
+Theorem merge_population_spec : forall p1 p2 f1 f2 g1 g2,
+  wf_pop p1 -> wf_pop p2 ->
+  interleaving f1 f2 (npersons p1) (npersons p2) = true ->
+  interleaving g1 g2 (g_count p1) (g_count p2) = true ->
+  let pM := merge_pop f1 f2 g1 g2 p1 p2 in
+  wf_pop pM /\ npersons pM = npersons p1 + npersons p2 /\ g_count pM = g_count p1 + g_count p2
+  /\ (forall i, i < npersons p1 ->
+        group_of pM (nth i f1 0) = nth (group_of p1 i) g1 0 /\ role_of pM (nth i f1 0) = role_of p1 i)
+  /\ (forall i, i < npersons p2 ->
+        group_of pM (nth i f2 0) = nth (group_of p2 i) g2 0 /\ role_of pM (nth i f2 0) = role_of p2 i).
+Proof. exact merge_pop_spec_lemma. Qed.
+Print Assumptions merge_population_spec.
+
+(** Merging two arrays and restricting gives them back; placing and restricting are inverse. *)
+Theorem restrict_merge_arr : forall (f1 f2 : list nat) (a1 a2 : list Z),
+  interleaving f1 f2 (length a1) (length a2) = true ->
+  restrict f1 (merge_arr f1 f2 a1 a2) = a1 /\ restrict f2 (merge_arr f1 f2 a1 a2) = a2.
+Proof. exact restrict_merge_arr_lemma. Qed.
+Print Assumptions restrict_merge_arr.
+
+Theorem place_restrict : forall (f : list nat) (a : list Z),
+  is_perm_b f (length a) = true -> place f (restrict f a) = a /\ restrict f (place f a) = a.
+Proof. exact place_restrict_lemma. Qed.
+Print Assumptions place_restrict.
+
+(** The interleavings that keep each situation's internal order (a list of booleans: whose
+    turn it is) are interleavings. *)
+Theorem bools_interleaving : forall il,
+  let '(f1, f2) := placement_of_bools il 0 in
+  interleaving f1 f2 (length f1) (length f2) = true.
+Proof. exact bools_interleaving_lemma. Qed.
+Print Assumptions bools_interleaving.
+
+(** * Non-vacuity: two households and a half, every group operation, a shuffled merge *)
+
+Definition ex_entity : gentity :=
+  {| e_key := "household"%string;
+     e_roles := [ {| r_key := "parent"%string; r_max := Some 2; r_subs := []; r_top := true |};
+                  {| r_key := "child"%string; r_max := None; r_subs := []; r_top := true |} ];
+     e_containing := [] |}.
+Definition ex_pop1 : popu :=
+  {| grp := {| g_entity := ex_entity; g_count := 2; g_ids := [0; 1; 0]; g_roles := [0; 0; 1] |} |}.
+(** the second situation has a trailing household without members *)
+Definition ex_pop2 : popu :=
+  {| grp := {| g_entity := ex_entity; g_count := 2; g_ids := [0; 0]; g_roles := [1; 0] |} |}.
+
+Definition jan : period := (Month, (2018, 1, 1)%Z, 1%Z).
+Definition ex_sys : sys :=
+  {| vars := [ mk_var EPerson TInt Month None [] 0%Z false false;
+               (* household: sum of the children's v0 + number of persons + 100 if all members have v0 > 6 *)
+               mk_var EGroup TInt Month None
+                 [((1, 1, 1)%Z,
+                   EBin BAdd (EBin BAdd (EAgg GSum (Some 1) (EDep 0 PSame OPlain)) (ENb None))
+                     (EBin BMul (EConst 100) (EAgg GAll None (EBin BLt (EConst 6) (EDep 0 PSame OPlain)))))]
+                 0%Z false false;
+               (* person: the household's v1 for parents (0 for the others) + own v0 + any(v0 > 25) *)
+               mk_var EPerson TInt Month None
+                 [((1, 1, 1)%Z,
+                   EBin BAdd (EBin BAdd (EProject (Some 0) (EDep 1 PSame OPlain)) (EDep 0 PSame OPlain))
+                     (EProject None (EAgg GAny None (EBin BLt (EConst 25) (EDep 0 PSame OPlain)))))]
+                 0%Z false false ];
+     params := []; switches := []; max_loops := 1 |}.
+Definition ex_inp1 : inputs := [((0, jan), [10; 20; 30]%Z)].
+Definition ex_inp2 : inputs := [((0, jan), [5; 7]%Z)].
+(** merged persons: [s1p1; s2p0; s1p2; s2p1; s1p0], merged households: [s2h0; s1h1; s2h1; s1h0] *)
+Definition ex_f1 := [4; 0; 2].  Definition ex_f2 := [1; 3].
+Definition ex_g1 := [3; 1].     Definition ex_g2 := [0; 2].
+
+Lemma ex_inputs_wf pp a : length a = npersons (grp pp) -> inputs_wf ex_sys pp [((0, jan), a)].
+Proof.
+  intros Ha v x p b Hv Hl. unfold lookup in Hl. cbn [find fst] in Hl.
+  destruct (key_eqb (v, p) (0, jan)) eqn:Ek; [|discriminate]. cbn in Hl. inversion Hl; subst b.
+  unfold key_eqb in Ek. apply andb_prop in Ek as [Ev _]. cbn [fst] in Ev. apply Nat.eqb_eq in Ev. subst v.
+  cbn in Hv. inversion Hv; subst x. exact Ha.
+Qed.
+
+Lemma ex_wf1 : wf_pop (grp ex_pop1).
+Proof. split; [repeat constructor|reflexivity]. Qed.
+Lemma ex_wf2 : wf_pop (grp ex_pop2).
+Proof. split; [repeat constructor|reflexivity]. Qed.
+
+(** the hypotheses of [merge_independence] hold, so its conclusion does ... *)
+Example merge_independence_applies : forall v p,
+  rmap (restrict (pick (ent_of ex_sys v) ex_f1 ex_g1))
+       (sem ex_sys (merge ex_f1 ex_f2 ex_g1 ex_g2 ex_pop1 ex_pop2)
+            (merge_inputs ex_sys ex_f1 ex_f2 ex_g1 ex_g2 ex_inp1 ex_inp2) v p)
+  = sem ex_sys ex_pop1 ex_inp1 v p
+  /\
+  rmap (restrict (pick (ent_of ex_sys v) ex_f2 ex_g2))
+       (sem ex_sys (merge ex_f1 ex_f2 ex_g1 ex_g2 ex_pop1 ex_pop2)
+            (merge_inputs ex_sys ex_f1 ex_f2 ex_g1 ex_g2 ex_inp1 ex_inp2) v p)
+  = sem ex_sys ex_pop2 ex_inp2 v p.
+Proof.
+  intros v p.
+  destruct (merge_independence ex_sys ex_pop1 ex_pop2 ex_inp1 ex_inp2 ex_f1 ex_f2 ex_g1 ex_g2
+              eq_refl ex_wf1 ex_wf2 eq_refl eq_refl eq_refl
+              (ex_inputs_wf ex_pop1 [10; 20; 30]%Z eq_refl) (ex_inputs_wf ex_pop2 [5; 7]%Z eq_refl) eq_refl v p) as [A B].
+  split; [apply A|apply B]; cbn; repeat constructor.
+Qed.
+
+(** ... and it is not trivial: the values *)
+Example merge_values :
+  sem ex_sys (merge ex_f1 ex_f2 ex_g1 ex_g2 ex_pop1 ex_pop2)
+      (merge_inputs ex_sys ex_f1 ex_f2 ex_g1 ex_g2 ex_inp1 ex_inp2) 1 jan
+  = Ok [7; 101; 100; 132]%Z
+  /\ sem ex_sys ex_pop1 ex_inp1 1 jan = Ok [132; 101]%Z
+  /\ sem ex_sys ex_pop2 ex_inp2 1 jan = Ok [7; 100]%Z
+  /\ sem ex_sys (merge ex_f1 ex_f2 ex_g1 ex_g2 ex_pop1 ex_pop2)
+         (merge_inputs ex_sys ex_f1 ex_f2 ex_g1 ex_g2 ex_inp1 ex_inp2) 2 jan
+     = Ok [121; 5; 31; 14; 143]%Z
+  /\ sem ex_sys ex_pop1 ex_inp1 2 jan = Ok [143; 121; 31]%Z
+  /\ sem ex_sys ex_pop2 ex_inp2 2 jan = Ok [5; 14]%Z.
+Proof. vm_compute. repeat split. Qed.
+
+(** errors too: an unknown variable, a period of the wrong unit *)
+Example merge_errors :
+  sem ex_sys (merge ex_f1 ex_f2 ex_g1 ex_g2 ex_pop1 ex_pop2)
+      (merge_inputs ex_sys ex_f1 ex_f2 ex_g1 ex_g2 ex_inp1 ex_inp2) 2 (Year, (2018, 1, 1)%Z, 1%Z)
+  = Err EValue
+  /\ sem ex_sys ex_pop1 ex_inp1 2 (Year, (2018, 1, 1)%Z, 1%Z) = Err EValue.
+Proof. vm_compute. split; reflexivity. Qed.
+
+Example permutation_applies : forall v p,
+  sem ex_sys (permute [2; 0; 1] [1; 0] ex_pop1) (permute_inputs ex_sys [2; 0; 1] [1; 0] ex_inp1) v p
+  = rmap (place (pick (ent_of ex_sys v) [2; 0; 1] [1; 0])) (sem ex_sys ex_pop1 ex_inp1 v p).
+Proof.
+  intros v p.
+  apply (permutation_equivariance ex_sys ex_pop1 ex_inp1 [2; 0; 1] [1; 0] eq_refl ex_wf1);
+    [cbn; repeat constructor|reflexivity|reflexivity|apply ex_inputs_wf; reflexivity].
+Qed.
+
+Example permutation_values :
+  sem ex_sys (permute [2; 0; 1] [1; 0] ex_pop1) (permute_inputs ex_sys [2; 0; 1] [1; 0] ex_inp1) 2 jan
+  = Ok [121; 31; 143]%Z
+  /\ sem ex_sys (permute [2; 0; 1] [1; 0] ex_pop1) (permute_inputs ex_sys [2; 0; 1] [1; 0] ex_inp1) 1 jan
+  = Ok [101; 132]%Z.
+Proof. vm_compute. split; reflexivity. Qed.
+
+(** the machine instance: fresh simulations holding the inputs *)
+Example machine_applies : forall v p,
+  rmap (restrict (pick (ent_of ex_sys v) ex_f1 ex_g1))
+       (snd (calc (enough_fuel ex_sys) ex_sys (merge ex_f1 ex_f2 ex_g1 ex_g2 ex_pop1 ex_pop2)
+                  (init (merge_inputs ex_sys ex_f1 ex_f2 ex_g1 ex_g2 ex_inp1 ex_inp2)) v p))
+  = snd (calc (enough_fuel ex_sys) ex_sys ex_pop1 (init ex_inp1) v p).
+Proof.
+  intros v p.
+  refine (proj1 (merge_independence_calculate ex_sys ex_pop1 ex_pop2 ex_inp1 ex_inp2 ex_f1 ex_f2 ex_g1 ex_g2
+              eq_refl (le_n 1) eq_refl ex_wf1 ex_wf2 eq_refl eq_refl eq_refl
+              (ex_inputs_wf ex_pop1 [10; 20; 30]%Z eq_refl) (ex_inputs_wf ex_pop2 [5; 7]%Z eq_refl) eq_refl _ _
+              _ _ (init ex_inp2) v p (Top_init _ _ _) (Top_init _ _ _) (Top_init _ _ _)));
+    cbn; repeat constructor.
+Qed.
+
+Example bools_example :
+  placement_of_bools [false; true; true; false; false] 0 = ([0; 3; 4], [1; 2]).
+Proof. reflexivity. Qed.
